@@ -149,6 +149,8 @@ static int cmdRun(std::map<std::string, std::string>& a)
         const uint64_t runMs = static_cast<uint64_t>(std::chrono::duration_cast<std::chrono::milliseconds>(std::chrono::steady_clock::now() - r0).count());
         if (runMs > maxRunMs)
             maxRunMs = runMs;
+        if (runMs > 5000)
+            printf("SLOW %llu %llu ms\n", static_cast<unsigned long long>(idx), static_cast<unsigned long long>(runMs));
         ++evaluations;
         const uint64_t ph = planHash(plan);
         if (isNontrivial(prop, r))
